@@ -104,9 +104,10 @@ func checkC07Read(c c07Read) core.Outcome {
 	if rp != "" {
 		return core.Failf("%s: fault-free decode panicked: %s", c.Format, rp)
 	}
+	illFormed := false
 	for _, it := range ref {
 		if it.IsErr() {
-			return core.Outcome{Skip: true} // not a well-formed input
+			illFormed = true // the statement does not ask for well-formed data: the oracle below covers both
 		}
 	}
 	if _, known := faultIdentities[c.Error]; c.Error != "" && !known {
@@ -124,28 +125,40 @@ func checkC07Read(c c07Read) core.Outcome {
 	if p != "" {
 		return core.Failf("%s: panic: %s", desc, p)
 	}
-	// records R_0..R_{j-1}, then >= 1 error items and nothing else
+	// Items agree with the fault-free decode position by position (records identical; for SAM, which goes
+	// on after a malformed line, the same parse errors in the same positions) up to some point j; from j
+	// on there are only error items, at least one, and nothing else.
 	j := 0
-	for j < len(items) && !items[j].IsErr() {
-		if j >= len(ref) || items[j].Rec != ref[j].Rec {
+	for j < len(items) {
+		if items[j].IsErr() {
+			if !f.ErrorIsLast && j < len(ref) && ref[j].IsErr() && j+1 < len(items) {
+				j++ // the parse error the fault-free decode has in this position too
+				continue
+			}
+			break
+		}
+		if j >= len(ref) || ref[j].IsErr() || items[j].Rec != ref[j].Rec {
 			want := "nothing (the fault-free decode has only " + fmt.Sprint(len(ref)) + " items)"
 			if j < len(ref) {
-				want = ref[j].Rec
+				want = renderObs(ref[j : j+1])
 			}
 			return core.Failf("%s: item %d is %s, but the fault-free decode has %s there: a record built from truncated data", desc, j, trunc(items[j].Rec, 300), trunc(want, 300))
 		}
 		j++
 	}
 	if j == len(items) {
-		return core.Failf("%s: the iteration ended after %d records without reporting any error, as though the data were complete", desc, j)
+		return core.Failf("%s: the iteration ended after %d items without reporting the failure, as though the data were complete: %s", desc, j, trunc(renderObs(items), 300))
 	}
 	for k := j; k < len(items); k++ {
 		if !items[k].IsErr() {
-			return core.Failf("%s: a record follows an error item: %s", desc, trunc(renderObs(items), 400))
+			return core.Failf("%s: a record follows the error item that does not stem from the data: %s", desc, trunc(renderObs(items), 400))
 		}
 	}
 	if f.ErrorIsLast && len(items) != j+1 {
 		return core.Failf("%s: %d error items, want the first error to be the last item", desc, len(items)-j)
+	}
+	if illFormed {
+		return core.Outcome{Class: fmt.Sprintf("ill-formed input: items-before-final-errors=%d errors=%d", min(j, 3), min(len(items)-j, 2)), Nontrivial: c.At > 0 && c.At < len(data)}
 	}
 	nontrivial := c.At > 0 && c.At < len(data) && j >= 1
 	return core.Outcome{Class: fmt.Sprintf("records-before-error=%d errors=%d", min(j, 3), min(len(items)-j, 2)), Nontrivial: nontrivial}
@@ -192,11 +205,11 @@ func wrap(n int, f func(i int, w *envio.LimitWriter) error) []func(w *envio.Limi
 
 func runC07(r *core.Run) {
 	r.Assume("after the fault the reader returns only the error (error-forever) or io.EOF (error-once), never more data")
-	r.Bound("read-side", "per format: every well-formed small and medium corpus file, the 15 placeholder-token files (\"*\", \".\", \"=\", \"0\", \"-\", \"+\", \"@\", \">\", \"#\", \";\", \"~\", \"NA\", \"\\\\N\", \"?\", \"%s\" at the start of every text field, alone and followed by more text), the ~9 KiB file and the long-line file (one line of 5000+ bytes, so faults land inside a line that spans two buffer fills) x EVERY fault offset 0..len x {error once then EOF, error forever} x {error alone, together with the last bytes} x {maximal reads, 1-byte reads}"+core.Pick(r, " (quick tier, 9 KiB file: maximal reads and the plans {once+alone, forever+with data} only)", ""))
+	r.Bound("read-side", "per format: every small and medium corpus file (well-formed or not: for ill-formed data the same oracle applies position by position), the files with syntax the library does not support (comments, track lines, multi-line records, placeholders), the 15 placeholder-token files (\"*\", \".\", \"=\", \"0\", \"-\", \"+\", \"@\", \">\", \"#\", \";\", \"~\", \"NA\", \"\\\\N\", \"?\", \"%s\" at the start of every text field, alone and followed by more text), the ~9 KiB file and the long-line file (one line of 5000+ bytes, so faults land inside a line that spans two buffer fills) x EVERY fault offset 0..len x {error once then EOF, error forever} x {error alone, together with the last bytes} x {maximal reads, 1-byte reads}"+core.Pick(r, " (quick tier, 9 KiB file: maximal reads and the plans {once+alone, forever+with data} only)", ""))
 	core.Clause(r, "read-faults", core.Opts{Rule: "fault plans enumerated completely per input; oracle: leading records of the fault-free decode, then >= 1 error items and nothing else, iteration ends within the horizon (fault-free items + 16; a reader polled > 2000 times after the fault counts as non-terminating); non-trivial = fault strictly inside the data and at least one record before it"},
 		func(emit func(c07Read) bool) {
 			for _, f := range formats {
-				for _, size := range []string{"small", "medium", "vocab", "large", "longline"} {
+				for _, size := range []string{"small", "medium", "vocab", "ext", "large", "longline"} {
 					for i, d := range corpus(f.Name, size) {
 						for at := 0; at <= len(d); at++ {
 							for _, forever := range []bool{false, true} {
